@@ -209,6 +209,19 @@ def check_cost(ctx, res, config="all"):
     else:
         res.fail(Finding("R8-quarter", "W(4096,4096)", "the product of two 4096-digit numbers needs %d digit multiplications, not fewer than a quarter of schoolbook's %d" % (w, 4096 * 4096), b))
     # (3) unbalanced shapes never cost more than schoolbook
+    # "about equal length" is not only n x n: operands a few digits or a quarter apart must be sub-quadratic too (a regime test
+    # that sends every pair of unequal lengths to the split-the-longer-operand branch makes n x 5n/4 cost exactly n*m)
+    for n in (1024, 4096):
+        for m in (n + 2, n + n // 4, n + n // 2):
+            w = rc.W(n, m)
+            key = "W(%d,%d)" % (n, m)
+            # Karatsuba-grade work: the property's own bound (a quarter of the schoolbook count) at 4096 digits, where today's
+            # dispatch needs 8-11 %; half of it at 1024 digits (17-20 % today) so that a retuned threshold does not alarm
+            lim_ = n * m / (4 if n >= 4096 else 2)
+            if w < lim_:
+                res.ok("R8-near-balanced-general", key, {"work": w, "fraction": round(w / (n * m), 4)})
+            else:
+                res.fail(Finding("R8-quarter", key, "%d x %d digits (about equal lengths) needs %d digit multiplications, not fewer than a %s of the schoolbook count %d" % (n, m, w, "quarter" if n >= 4096 else "half", n * m), b))
     for n in (40, 64, 200, 300, 1000):
         for m in (2 * n - 1, 2 * n, 64 * n):
             w = W(n, m)
@@ -467,6 +480,19 @@ def _check_cost_general(ctx, res, config="all"):
         res.ok("R8-quarter-general", "W(4096,4096)", {"work": w, "fraction": round(w / (4096 * 4096), 4)})
     else:
         res.fail(Finding("R8-quarter", "W(4096,4096)", "4096 x 4096 digits needs %d digit multiplications, not fewer than a quarter of %d" % (w, 4096 * 4096), b))
+    # "about equal length" is not only n x n: operands a few digits or a quarter apart must be sub-quadratic too (a regime test
+    # that sends every pair of unequal lengths to the split-the-longer-operand branch makes n x 5n/4 cost exactly n*m)
+    for n in (1024, 4096):
+        for m in (n + 2, n + n // 4, n + n // 2):
+            w = rc.W(n, m)
+            key = "W(%d,%d)" % (n, m)
+            # Karatsuba-grade work: the property's own bound (a quarter of the schoolbook count) at 4096 digits, where today's
+            # dispatch needs 8-11 %; half of it at 1024 digits (17-20 % today) so that a retuned threshold does not alarm
+            lim_ = n * m / (4 if n >= 4096 else 2)
+            if w < lim_:
+                res.ok("R8-near-balanced-general", key, {"work": w, "fraction": round(w / (n * m), 4)})
+            else:
+                res.fail(Finding("R8-quarter", key, "%d x %d digits (about equal lengths) needs %d digit multiplications, not fewer than a %s of the schoolbook count %d" % (n, m, w, "quarter" if n >= 4096 else "half", n * m), b))
     for n in (40, 64, 200, 300, 1000):
         for m in (2 * n - 1, 2 * n, 64 * n):
             w = rc.W(n, m)
